@@ -5,6 +5,8 @@ pub mod c11;
 pub mod c12;
 pub mod c14;
 pub mod c15;
+pub mod c16;
+pub mod c17;
 pub mod c20;
 pub mod tamper;
 pub mod worldmon;
@@ -25,6 +27,8 @@ pub struct Args {
 pub fn run(a: &Args) -> Result<ShardOut, String> {
     match a.prop.as_str() {
         "C01" => Ok(c01::run(a)),
+        "C16" => Ok(c16::run(a)),
+        "C17" => Ok(c17::run(a)),
         "C20" => Ok(c20::run(a)),
         "C02" => Ok(worldmon::run_c02(a)),
         "C06" => Ok(c06::run(a)),
